@@ -278,46 +278,52 @@ func ruleTimeConservation(w *World, r *Report, pfx string) {
 		n++
 		owner := typeName(fn.Signature.Recv().Type())
 		nP, durP := ssa.Value(fn.Params[1]), ssa.Value(fn.Params[2])
-		isCarry := func(v ssa.Value) bool { // zDur + dur
-			add, ok := v.(*ssa.BinOp)
-			if !ok || add.Op != token.ADD {
-				return false
-			}
-			return (isLoad(Val{V: add.X}, owner, "zDur") && add.Y == durP) || (isLoad(Val{V: add.Y}, owner, "zDur") && add.X == durP)
-		}
 		bad := ""
 		sawCarry, sawAdd := false, false
-		w.enumPaths(fn, pathOpts{}, func(p *Path) {
+		w.enumPaths(fn, pathOpts{InlineDepth: 2, Inline: func(_ ssa.CallInstruction, c *ssa.Function) bool { return c.Pkg == w.Decor }}, func(p *Path) {
 			if bad != "" || p.Exit != "return" {
 				return
 			}
+			isCarry := func(v Val) bool { // zDur + dur, with dur resolved to this method's parameter
+				add, ok := stripConv(v.V).(*ssa.BinOp)
+				if !ok || add.Op != token.ADD {
+					return false
+				}
+				x, y := p.R(Val{add.X, v.F, v.E}), p.R(Val{add.Y, v.F, v.E})
+				return (isLoad(Val{V: x.V}, owner, "zDur") && y.V == durP) || (isLoad(Val{V: y.V}, owner, "zDur") && x.V == durP)
+			}
 			st := p.storesTo(owner, "zDur")
-			var adds []*ssa.Call
+			type addCall struct {
+				c  *ssa.Call
+				ev Event
+			}
+			var adds []addCall
 			for _, ev := range p.Events {
 				if c, ok := ev.In.(*ssa.Call); ok && c.Call.IsInvoke() && c.Call.Method.Name() == "Add" {
-					adds = append(adds, c)
+					adds = append(adds, addCall{c, ev})
 				}
 			}
 			switch {
 			case len(adds) == 0:
 				sawCarry = true
-				if len(st) != 1 || !isCarry(st[0].Val.V) {
+				if len(st) != 1 || !isCarry(st[0].Val) {
 					bad = "a sample without progress (or with an unusable quotient) is not carried into the next one as zDur += dur: its time is dropped and the next estimate is too optimistic"
 				}
 			case len(adds) == 1:
 				sawAdd = true
-				// n > 0 known
 				if !p.hasCmp(-1, token.GTR, func(v Val) bool { return v.V == nP }, isConstInt(0)) {
 					bad = "a duration-per-item is added on a path without the atom n > 0 (division by zero or negative progress)"
 					return
 				}
-				q, ok := adds[0].Call.Args[0].(*ssa.BinOp)
+				av := p.val(adds[0].ev, adds[0].c.Call.Args[0])
+				q, ok := av.V.(*ssa.BinOp)
 				if !ok || q.Op != token.QUO {
 					bad = "the value added to the moving average is not a quotient"
 					return
 				}
-				num, den := stripConv(q.X), stripConv(q.Y)
-				if !isCarry(num) || den != nP {
+				num := p.R(Val{stripConv(q.X), av.F, av.E})
+				den := p.R(Val{stripConv(q.Y), av.F, av.E})
+				if !isCarry(num) || den.V != nP {
 					bad = "the value added is not (carried time + this sample's time) / n"
 					return
 				}
